@@ -2,5 +2,5 @@ INIT Init
 NEXT Next
 INVARIANT Inv
 CONSTANTS
- Encodings = {2, 3, 6, 11}
+ Encodings = {2, 3, 6, 11, 14}
 CHECK_DEADLOCK FALSE
